@@ -216,13 +216,10 @@ def startConnect (w : World) : World :=
   let w := w.dropConn
   let w := { w with nets := w.nets ++ [({ } : Net)] }
   let w := w.emit s!"net {w.netIdx} open"
-  let s := w.sess
-  let s := { s with reader := s.reader.reset, rt := s.rt.resetTransport,
-                    data := { s.data with outbound := s.data.outbound.armReplay } }
-  let w := { w with sess := s, wakes := 0, lastIoStarved := false }
-  let c : Connect := s.connectPacket
-  let (o, res) := s.data.outbound.encodeAt (fun cap _ => encodeConnect cap c)
-  let w := w.setOutbound o
+  let w := { w with sess := w.sess.beginConnect, wakes := 0, lastIoStarved := false }
+  let c : Connect := w.sess.connectPacket
+  let (s2, res) := w.sess.encode (fun cap _ => encodeConnect cap c)
+  let w := { w with sess := s2 }
   match res with
   | .error e => w.finishErr "connect" (Err.ofSer e)
   | .ok (off, len) => doLocalWrite pollFuel w 0 (w.sess.data.outbound.retainedPacket off len)
@@ -290,7 +287,7 @@ def execDirective (w : World) (d : Directive) : World :=
   | .drop => w.dropConn
   | .setpid n =>
     if w.fut.isSome then w.emit "bad-op"
-    else { w with sess := { w.sess with data := { w.sess.data with packetId := n } } }
+    else { w with sess := w.sess.setPid n }
   | .decode bs => w.emit (decodeLine bs)
 
 def exec (w : World) (line : String) : World :=
